@@ -72,9 +72,13 @@ class Fixtures:
         os.symlink("a.txt", os.path.join(t, "l"))
         r = cli.run_pna(["--quiet", "create", "../tree.pna", "--store", "-r", "in"], os.path.join(d, "t"))
         assert r["rc"] == 0, r
-        ents, end = cli.dump([os.path.join(d, "tree.pna")])
-        self.tree_entries = [(cli.unhex(e["name"]).decode(), e["kind"]) for e in ents if "solid_header" not in e]
-        assert end == "ok" or end.startswith("ok") or True
+        r = cli.run_pna(["--quiet", "create", "../tree_kd.pna", "--store", "--keep-dir", "-r", "in"], os.path.join(d, "t"))
+        assert r["rc"] == 0, r
+        self.entries = {}
+        for ar in ("tree.pna", "tree_kd.pna"):
+            ents, end = cli.dump([os.path.join(d, ar)])
+            assert end == "OK", (ar, end)
+            self.entries[ar] = [(cli.unhex(e["name"]).decode(), e["kind"]) for e in ents if "solid_header" not in e]
 
     def file(self, name):
         return os.path.join(self.dir, name)
@@ -132,6 +136,7 @@ def commands(fx, tier):
         Cmd("stdio-c", "stdio_create", put_inputs, ["--quiet", "experimental", "stdio", "-c", "-f", "sc.pna", "--store", "in/s.bin"]),
         Cmd("extract", "extract", put("tree.pna"), ["--quiet", "extract", "tree.pna", "--out-dir", "out"], dirpos=True),
         Cmd("extract-cwd", "extract", put("tree.pna"), ["--quiet", "extract", "tree.pna"], dirpos=True),
+        Cmd("extract-keepdir", "extract", put("tree_kd.pna"), ["--quiet", "extract", "tree_kd.pna", "--out-dir", "out"], dirpos=True),
         Cmd("stdio-x", "stdio_extract", put("tree.pna"), ["--quiet", "experimental", "stdio", "-x", "--out-dir", "out"],
             stdin="tree.pna", dirpos=True),
     ]
@@ -158,10 +163,10 @@ def reference_run(c, fx):
         if c.model in ("extract", "stdio_extract"):
             base = c.args[c.args.index("--out-dir") + 1] if "--out-dir" in c.args else ""
             outs = []
-            for name, kind in fx.tree_entries:
+            for name, kind in fx.entries[c.stdin or c.args[c.args.index("extract") + 1]]:
                 k = {0: "f", 1: "d", 2: "l", 3: "h"}[kind]          # DataKind as u8
                 outs.append((k, os.path.normpath(os.path.join(base, name))))
-            assert set(p for _, p in outs) == set(leaves), (outs, leaves)
+            assert set(p for _, p in outs) >= set(leaves) and set(p for k, p in outs if k != "d") == set(leaves), (outs, leaves)
         elif c.model in ("create_split", "split"):
             parts = sorted((p for p in leaves if part_no(os.path.basename(p))), key=lambda p: part_no(os.path.basename(p)))
             rest = [p for p in leaves if p not in parts]
@@ -209,7 +214,7 @@ def positions(c):
     inputs, e.g. the archive an in-place split reads) and, for extraction, the directory positions above them"""
     pos = [(p, False) for _, p in c.outputs]
     if c.dirpos:
-        seen = set()
+        seen = set(p for _, p in c.outputs)      # a directory entry's own destination is already a position
         for _, p in c.outputs:
             d = os.path.dirname(p)
             while d and d not in seen:
